@@ -34,7 +34,7 @@ ASSUMPTIONS = [
     "versioned branch but of the same major as the newest; 'master' chosen but no master branch) either answer is accepted",
 ]
 
-UNIVERSE_Q = ["master", "5", "6", "7", "7.0", "7.2", "7.11", "7.3.0", "7.3.1", "7.3.1-beta1", "8.0", "8", "feature-x"]
+UNIVERSE_Q = ["master", "5", "6", "7", "7.0", "7.2", "7.11", "7.3.0", "7.3.1", "7.3.1-beta1", "8.0", "8", "feature-x", "9.x"]
 UNIVERSE_T = UNIVERSE_Q + ["6.8", "7.10", "8.0.0", "9"]
 VERSIONS_Q = ["6.8.0", "7.0.0", "7.0.1", "7.1.0", "7.3.1", "7.3.1-beta1", "7.10.2", "7.12.1", "8.0.0", "8.1.0", "9.0.0", None, "serverless"]
 VERSIONS_T = VERSIONS_Q + ["5.6.16", "7.3.0", "7.3.2-beta1", "8.0.0-SNAPSHOT", "10.0.0", ""]
